@@ -622,6 +622,7 @@ func (t *Task) verifyFunc(fn *ssa.Function, con *FuncContract) {
 			}
 		}
 	}
+	t.unsetGhosts(con, env)
 	// vacuity: the preconditions must be satisfiable
 	cv := &Obligation{Name: t.curFn + caseSuffix(con) + "#cover[requires]", Kind: "cover", Fn: t.curFn, Pc: tTrue, Goal: tFalse, NAssert: len(t.asserts), task: t, Src: con.Src}
 	t.covers = append(t.covers, cv)
@@ -866,6 +867,68 @@ func mentionsLet(con *FuncContract, expr string) bool {
 	for _, id := range identRe.FindAllString(expr, -1) {
 		if lets[id] {
 			return true
+		}
+	}
+	return false
+}
+
+// unsetGhosts: ghost locals that only an 'oncall' hook assigns have no value on a path where the hooked call never
+// happens. When the hook's target still exists in the program, that is a fact about the code (the call is not made), not a
+// contract that no longer matches it: the names are bound to unconstrained values so that the clauses over them are
+// evaluated (and fail) instead of stopping the evaluation with "unknown identifier". When the target does not exist any
+// more the names stay unbound and the evaluation errors make the task UNDECIDED.
+func (t *Task) unsetGhosts(con *FuncContract, env *ExprEnv) {
+	for _, c := range con.Clauses {
+		if c.Kind != "oncall" || !t.eng.hookTargetExists(c.Name) {
+			continue
+		}
+		for _, as := range strings.Split(c.Expr, ";") {
+			as = strings.TrimSpace(as)
+			k := strings.Index(as, ":=")
+			if k < 0 || strings.HasPrefix(as, "assert ") || strings.HasPrefix(as, "assume ") {
+				continue
+			}
+			name := strings.TrimSpace(as[:k])
+			if _, ok := env.vars[name]; ok {
+				continue
+			}
+			if _, ok := t.pendingLets[name]; ok {
+				continue
+			}
+			v := Val{K: KInt, S: t.fresh("unset:"+name, "Int"), Unset: true}
+			env.vars[name] = v
+			if t.pendingLets == nil {
+				t.pendingLets = map[string]Val{}
+			}
+			t.pendingLets[name] = v
+		}
+	}
+}
+
+func (e *Eng) hookTargetExists(name string) bool {
+	for full := range e.funcs {
+		if strings.HasSuffix(full, name) {
+			return true
+		}
+	}
+	if !strings.ContainsAny(name, ".()") {
+		// a bare method name: an interface of the program has it
+		for _, p := range e.pkgs {
+			if p.Types == nil {
+				continue
+			}
+			sc := p.Types.Scope()
+			for _, n := range sc.Names() {
+				if tn, ok := sc.Lookup(n).(*types.TypeName); ok {
+					if it, ok := tn.Type().Underlying().(*types.Interface); ok {
+						for i := 0; i < it.NumMethods(); i++ {
+							if it.Method(i).Name() == name {
+								return true
+							}
+						}
+					}
+				}
+			}
 		}
 	}
 	return false
